@@ -894,6 +894,37 @@ def value_returned_under(cfg, funcnode, assign, name, env):
     return hits
 
 
+def is_copier(m, module, name, _seen=None):
+    """`name` is a module level function that hands back copies of what it is given: every return value is `<x>.copy()`, a call
+    of the function itself (on elements) or of another copier, or a display / comprehension / tuple() / dict() built from such"""
+    _seen = _seen or set()
+    fi = m.functions.get(f'{module.name}.{name}')
+    if fi is None or fi.cls is not None or fi.qualname in _seen:
+        return False
+    _seen = _seen | {fi.qualname}
+    rets = [r.value for r in body_walk(fi.node) if isinstance(r, ast.Return)]
+    if not rets or any(v is None for v in rets):
+        return False
+
+    def copying(e):
+        if isinstance(e, ast.Call):
+            if call_attr(e) == 'copy' and isinstance(e.func, ast.Attribute):
+                return True
+            if isinstance(e.func, ast.Name) and (e.func.id == name or is_copier(m, module, e.func.id, _seen)):
+                return True
+            if isinstance(e.func, ast.Name) and e.func.id in ('tuple', 'list', 'dict', 'set') and e.args:
+                return copying(e.args[0])
+            return False
+        if isinstance(e, (ast.GeneratorExp, ast.ListComp, ast.SetComp)):
+            return copying(e.elt)
+        if isinstance(e, ast.DictComp):
+            return copying(e.value)
+        if isinstance(e, (ast.Tuple, ast.List)):
+            return bool(e.elts) and all(copying(x) for x in e.elts)
+        return False
+    return all(copying(v) for v in rets)
+
+
 def resolved(expr, funcnode, depth=4):
     """copy of expr in which every local that is bound exactly once in funcnode (a plain assignment) is replaced by the
     expression it was bound to: `frame = x.encode(); return frame + EOL` reads as `x.encode() + EOL`"""
